@@ -262,16 +262,28 @@ func (th *Thread) strConcat(a, b Str) Value {
 	if a.Opaque != nil || b.Opaque != nil {
 		la, lb := th.strLenTerm(a), th.strLenTerm(b)
 		o := &OpaqueStr{Len: m.ts.Bin(OpAdd, la, lb)}
-		if a.Opaque != nil {
-			o.Chunks = append(o.Chunks, a.Opaque.Chunks...)
-		} else if a.Len() > 0 {
-			o.Chunks = append(o.Chunks, "lit:"+m.strDesc(a))
+		add := func(s Str) {
+			if s.Opaque != nil {
+				for _, sg := range s.Opaque.Segs {
+					if sg.ID == "" && len(o.Segs) > 0 && o.Segs[len(o.Segs)-1].ID == "" {
+						last := &o.Segs[len(o.Segs)-1]
+						last.Bytes = append(append([]*Term{}, last.Bytes...), sg.Bytes...)
+						continue
+					}
+					o.Segs = append(o.Segs, sg)
+				}
+			} else if s.Len() > 0 {
+				bs := m.strBytes(s)
+				if len(o.Segs) > 0 && o.Segs[len(o.Segs)-1].ID == "" {
+					last := &o.Segs[len(o.Segs)-1]
+					last.Bytes = append(append([]*Term{}, last.Bytes...), bs...)
+				} else {
+					o.Segs = append(o.Segs, Seg{Bytes: bs})
+				}
+			}
 		}
-		if b.Opaque != nil {
-			o.Chunks = append(o.Chunks, b.Opaque.Chunks...)
-		} else if b.Len() > 0 {
-			o.Chunks = append(o.Chunks, "lit:"+m.strDesc(b))
-		}
+		add(a)
+		add(b)
 		return Str{Opaque: o}
 	}
 	if a.IsConcrete() && b.IsConcrete() {
@@ -284,6 +296,52 @@ func (th *Thread) strConcat(a, b Str) Value {
 		return a
 	}
 	return mkStr(append(append([]*Term{}, m.strBytes(a)...), m.strBytes(b)...))
+}
+
+// ropeEq decides equality of two strings of which at least one is opaque, under
+// the token assumption: a rendering token is never split across, nor produced by,
+// the literal text around it (the delimiter grammar parses uniquely).  Aligned
+// segment lists compare piecewise (tokens through their uninterpreted token
+// terms); misaligned lists are unequal.  Blobs compare only with themselves.
+func (th *Thread) ropeEq(a, b Str) *Term {
+	m := th.m
+	segs := func(s Str) []Seg {
+		if s.Opaque != nil {
+			return s.Opaque.Segs
+		}
+		if s.Len() == 0 {
+			return nil
+		}
+		return []Seg{{Bytes: m.strBytes(s)}}
+	}
+	sa, sb := segs(a), segs(b)
+	if len(sa) != len(sb) {
+		return m.ts.Bool(false)
+	}
+	r := m.ts.Bool(true)
+	for i := range sa {
+		x, y := sa[i], sb[i]
+		switch {
+		case x.ID == "" && y.ID == "":
+			if len(x.Bytes) != len(y.Bytes) {
+				return m.ts.Bool(false)
+			}
+			for k := range x.Bytes {
+				r = m.ts.And(r, m.ts.Eq(x.Bytes[k], y.Bytes[k]))
+			}
+		case x.ID == "" || y.ID == "":
+			if x.Tok == nil && y.Tok == nil {
+				m.unsupported("comparison of an opaque blob with literal text")
+			}
+			return m.ts.Bool(false)
+		case x.ID == y.ID:
+		case x.Tok != nil && y.Tok != nil:
+			r = m.ts.And(r, m.ts.Eq(x.Tok, y.Tok))
+		default:
+			m.unsupported("comparison of opaque blobs")
+		}
+	}
+	return r
 }
 
 func (m *Machine) strDesc(s Str) string {
